@@ -21,7 +21,7 @@ RULE = ('case = (JSON-like tree with placeholder strings at random depths, globa
         'non-trivial = tree holds >=1 string with a defined placeholder at depth >=1; distinct = hash(tree, vars)')
 REQUIRED = ['trees', 'strings_substituted', 'strings_undefined_only', 'nonstring_leaves_checked', 'second_application',
             'copies_checked', 'config_cases', 'uses_path_substituted', 'object_args_substituted', 'context_values_substituted',
-            'config_object_uses_checked', 'context_reuse_configs', 'path_parameters_checked', 'context_uses_paths_with_placeholder', 'gv_style_property', 'gv_style_inherited', 'gv_style_module']
+            'config_object_uses_checked', 'context_reuse_configs', 'path_parameters_checked', 'context_uses_paths_with_placeholder', 'typed_parameters_checked', 'gv_style_property', 'gv_style_inherited', 'gv_style_module']
 ASSUMPTIONS = ['strings where a `{` occurs inside an open brace pair ({{A}}, {a{B}}) are ambiguous: only idempotence, type and '
                'non-interference are checked there',
                'mapping keys, tuples/sets, dunder attribute names and replacement values containing braces are outside the checked text oracle']
@@ -286,11 +286,13 @@ def check_config_case(rng, res: CaseResult):
         class Probe(Task):
             class Meta:
                 parameters = [Parameter('own'), Parameter('ctx_param'), Parameter('obj'), Parameter('lst'),
-                              Parameter('ctx_file_param'), Parameter('pth', dtype=Path, default=None), Parameter('ctx_used_param', default=None)]
+                              Parameter('ctx_file_param'), Parameter('pth', dtype=Path, default=None), Parameter('ctx_used_param', default=None),
+                              Parameter('typed_s', dtype=str, default=None), Parameter('typed_l', dtype=list, default=None), Parameter('typed_d', dtype=dict, default=None)]
 
-            def run(self, own, ctx_param, obj, lst, ctx_file_param, pth, ctx_used_param) -> dict:
+            def run(self, own, ctx_param, obj, lst, ctx_file_param, pth, ctx_used_param, typed_s, typed_l, typed_d) -> dict:
                 return {'own': own, 'ctx_param': ctx_param, 'obj_path': obj.path, 'obj_items': obj.items, 'lst': lst,
-                        'ctx_file_param': ctx_file_param, 'pth': [type(pth).__name__, str(pth)], 'ctx_used_param': ctx_used_param}
+                        'ctx_file_param': ctx_file_param, 'pth': [type(pth).__name__, str(pth)], 'ctx_used_param': ctx_used_param,
+                        'typed_s': typed_s, 'typed_l': typed_l, 'typed_d': typed_d}
 
         class UsedProbe(Task):
             class Meta:
@@ -317,6 +319,7 @@ def check_config_case(rng, res: CaseResult):
             'uses': ['{DIR}/used.' + fmt + (' as ns' if rng.random() < 0.5 else '')],
             'own': 'o-{A}/{NUM}/{U}',
             'pth': '{STORE}/models',
+            'typed_s': '{DIR}/table-{A}.csv', 'typed_l': ['{A}', ['{B}']], 'typed_d': {'k': '{A}/{U}'},
             'lst': ['{A}', ['{B}{B}', 5, None], {'m': '{NUM}'}],
             'obj': {'class': f'{__name__}.PObj', 'kwargs': {'path': '{DIR}/f-{A}', 'items': ['{B}', {'z': '{A}'}]}},
         }
@@ -373,6 +376,7 @@ def check_config_case(rng, res: CaseResult):
             'ctx_file_param': ref_sub('cf-{A}-{NUM}', vars_),
             'pth': ['PosixPath', str(Path(ref_sub('{STORE}/models', vars_)))],
             'ctx_used_param': ref_sub('cu-{A}-{U}', vars_) if ctx_uses else None,
+            'typed_s': ref_sub('{DIR}/table-{A}.csv', vars_), 'typed_l': [vars_['A'], [vars_['B']]], 'typed_d': {'k': ref_sub('{A}/{U}', vars_)},
         }
         if ctx_uses:
             res.count('context_uses_paths_with_placeholder')
@@ -397,6 +401,11 @@ def check_config_case(rng, res: CaseResult):
         prm = task.params._parameters['own']
         if prm.value_repr() != "'o-{A}/{NUM}/{U}'":
             res.violate(f'parameter repr for persistence is {prm.value_repr()!r}, expected the placeholder form', witness=wit)
+        for pn_, want_ in (('typed_s', "'{DIR}/table-{A}.csv'"), ('typed_l', "['{A}', ['{B}']]"), ('typed_d', "{'k': '{A}/{U}'}")):
+            got_ = task.params._parameters[pn_].value_repr()
+            res.count('typed_parameters_checked')
+            if got_ != want_:
+                res.violate(f'parameter {pn_} declared with a dtype: repr for persistence is {got_!r}, expected the placeholder form {want_!r}', witness=wit)
         pth_repr = task.params._parameters['pth'].value_repr()
         res.count('path_parameters_checked')
         if '{STORE}' not in pth_repr:
